@@ -11,7 +11,7 @@ seeds="$@"; [ -z "$seeds" ] && seeds=$(ls seeded)
 for s in $seeds; do
   prop=$(jq -r .property seeded/$s/meta.json)
   extra=$(jq -r '.also_check // [] | join(" ")' seeded/$s/meta.json)
-  if ! git -C $W apply --3way /verif/seeded/$s/patch.diff >/dev/null 2>&1; then echo "$s $prop PATCH-DOES-NOT-APPLY"; git -C $W checkout -q -- . ; git -C $W reset -q; continue; fi
+  if ! git -C $W apply --3way /verif/seeded/$s/patch.diff >/dev/null 2>&1; then echo "$s $prop PATCH-DOES-NOT-APPLY"; git -C $W reset -q --hard HEAD; continue; fi
   res=""
   for p in $prop $extra; do
     if jq -e --arg p $p '.checks[]|select(.property_id==$p)' MANIFEST.json >/dev/null; then
@@ -21,5 +21,5 @@ for s in $seeds; do
     else res="$res $p:not-claimed"; fi
   done
   echo "$s$res"
-  git -C $W checkout -q -- . ; git -C $W reset -q
+  git -C $W reset -q --hard HEAD
 done
